@@ -84,18 +84,19 @@ def main(argv=None) -> int:
     tmp = Path(tempfile.mkdtemp(prefix=f"pvm_{prop}_"))
     procs = []
     env = dict(os.environ)
+    deadline = time.time() + budget
     for w in range(workers):
         out = tmp / f"w{w}.json"
         cmd = [sys.executable, "-m", "pvm.worker", prop, "--tier", tier,
                "--seed", str(seed), "--n", str(n), "--stride", str(workers),
-               "--offset", str(w), "--out", str(out)]
+               "--offset", str(w), "--out", str(out),
+               "--deadline", str(deadline - 0.08 * budget)]
         log = open(tmp / f"w{w}.log", "w")
         procs.append((w, out, log, subprocess.Popen(
             cmd, cwd=str(ROOT), env=env, stdout=log, stderr=subprocess.STDOUT)))
 
     results = []
     crashed = []
-    deadline = time.time() + budget
     for w, out, log, p in procs:
         try:
             p.wait(timeout=max(1.0, deadline - time.time()))
